@@ -170,6 +170,14 @@ Definition f_tr_num (c : bool) (sw : option fmat) (rows all scale Kt : fmat) : f
   kn_transform_f (KnCfg c true (has_w sw)) (f_ncols Kt) (length Kt) (opt_w sw)
                  (KnState rows all scale) Kt.
 
+(* what transform(K, copy=False) leaves in the caller's array: K after the three in-place updates
+   K -= K_fit_rows_; K -= K_pred_cols; K += K_fit_all_  (centred, NOT divided by scale_) *)
+Definition f_cen_num (c : bool) (sw : option fmat) (rows all Kt : fmat) : fmat :=
+  let n := f_ncols Kt in
+  let cfg := KnCfg c true (has_w sw) in
+  eval_f (kn_env [] (opt_w sw) Kt rows all [] [] [] [] [])
+         (kn_centered cfg n (kKt n (length Kt)) (kRows n) kAll).
+
 Definition fkn_obj := kn_obj fmat.
 Definition fkn_step : fkn_obj -> kn_op fmat -> fkn_obj * ob_res fmat :=
   kn_step fmat f_nrows f_ncols f_norm_w f_fit_num f_tr_num.
@@ -191,7 +199,10 @@ Inductive imp_res :=
 | IRaise
 | IFit (rows all scale : fmat)                    (* attributes after fit (all = [] for sparse) *)
 | IOut (X : fmat)
-| IFitOut (rows all scale X : fmat).
+| IFitOut (rows all scale X : fmat)
+(* copy=False: additionally the contents of the caller's array after the call *)
+| IOutL (X left : fmat)
+| IFitOutL (rows all scale X left : fmat).
 
 Definition fmax2 (a b : float) : float := if ltb a b then b else a.
 
@@ -214,7 +225,16 @@ Definition fkn_cmp (tol : float) (st : fkn_obj * float) (op : kn_op fmat) (imp :
       | Some a => fclose_ref tol (fmax2 km (fmaxabs Kt) / abs (fscalar (a_scale fmat a))) X Y
       | None => false
       end in
+  let left_ok (km : float) (Kt L : fmat) :=
+      match o_attrs fmat o1 with
+      | Some a => fclose_ref tol (fmax2 km (fmaxabs Kt))
+                             (f_cen_num (o_center fmat o1) (a_sw fmat a) (a_rows fmat a) (a_all fmat a) Kt) L
+      | None => false
+      end in
   match op, r, imp with
+  | OTransform Kt, ROut X, IOutL Y L => ((o1, kmax), (out_ok kmax Kt X Y && left_ok kmax Kt L)%bool)
+  | OFitTransform K _, ROut X, IFitOutL ir ia isc Y L =>
+      ((o1, fmaxabs K), (attrs_ok K ir ia isc && out_ok (fmaxabs K) K X Y && left_ok (fmaxabs K) K L)%bool)
   | OSet _ _, RDone, IDone => ((o1, kmax), true)
   | OFit K _, RDone, IFit ir ia isc => ((o1, fmaxabs K), attrs_ok K ir ia isc)
   | OFit _ _, RRaise, IRaise => ((o1, kmax), true)
